@@ -268,7 +268,7 @@ Definition cli_case (a o : list value) : verdict :=
 
 Open Scope string_scope.
 Definition glue_C13 (k : string) (a o : list value) : option verdict :=
-  if is k "srv" || is k "srv.probe" then Some (srv_case a o)
+  if is k "srv" || is k "srv.probe" || is k "srv.keyed" then Some (srv_case a o)
   else if is k "cli" || is k "cli.probe" then Some (cli_case a o)
   else None.
 
